@@ -11,9 +11,11 @@ import json,sys
 id,prop,r1,r2=sys.argv[1:5]
 p='/verif/seeded/%s/meta.json'%id
 m=json.load(open(p))
+old=m.get('verified_by_coordinator',{}) if isinstance(m.get('verified_by_coordinator'),dict) else {}
 m['verified_by_coordinator']={'demo_on_unmodified_build_rc':int(r1),'demo_on_modified_build_rc':int(r2),
   'check_run':'VERIF_REPO=<worktree with patch> ./check %s  → VIOLATION (see DESIGN.md 13.5)'%prop,
   'suite':'builder agent ran the full nextest suite before/after (same 21 failures)'}
-json.dump(m,open(p,'w'),indent=1)
+if 'history' in old: m['verified_by_coordinator']['history']=old['history']
+json.dump(m,open(p,'w'),indent=1,ensure_ascii=False)
 print(id,'demo unmodified rc',r1,'modified rc',r2)
 PY
